@@ -158,7 +158,7 @@ theorem C13_value_roundtrip (c : Ctx) (s : Str) (q : Bool) (out : Str) (c' : Ctx
   obtain ⟨p, s', L, C, hn, a1, a2, a3⟩ := C02_value_roundtrip c s q out c' (by rw [hdia]; exact hok) hcol h w0 ctx line col lt pol log
     (by rw [hdia]; exact hw0) hfirst hws hfitw hcolw (by rw [hdia]; exact hctx)
   rw [hdia] at hn
-  exact ⟨p, s', L, C, hn, a1, a2, a3⟩
+  exact ⟨p, s', L, C, hn, a1, a2, fun hp => ⟨(a3 hp).1, (a3 hp).2.1⟩⟩
 
 /-- FULL: `cif_write` in CIF 1.1 mode on a whole CIF fails only with CIF_DISALLOWED_CHAR / CIF_DISALLOWED_VALUE (loops
     non-empty, data names of 2 to 2048 characters).  PROVED OF IT: the value level (`C13_refusal_codes`). -/
